@@ -88,6 +88,42 @@ var c10Queries2 = []string{
 	"SELECT a FROM t WHERE EXISTS (SELECT * FROM `<-zz`)",
 	"SELECT (SELECT a FROM `<-<-<-t`) AS v FROM t",
 	"SELECT -s AS v, ~o AS w, !arr AS z FROM t",
+	// lazily evaluated CTEs under every selector form, and failing ones
+	"WITH c AS (SELECT a FROM t) SELECT * FROM `c[0]`",
+	"WITH c AS (SELECT a FROM t) SELECT * FROM `c[(0:1)]`",
+	"WITH c AS (SELECT a FROM t) SELECT * FROM `keep=>c[0]`",
+	"WITH c AS (SELECT a FROM t) SELECT * FROM `c{a}`",
+	"WITH c AS (SELECT a, arr FROM t) SELECT * FROM `c.arr`",
+	"WITH c AS (SELECT vfail(a) AS a FROM t) SELECT * FROM c",
+	"WITH c AS (SELECT vfail(a) AS a FROM t) SELECT * FROM `c[0]`",
+	"WITH c AS (SELECT vfail(a) AS a FROM t) SELECT * FROM `keep=>c[0]`",
+	"WITH c AS (SELECT vfail(a) AS a FROM t) SELECT * FROM `c{a}`",
+	"WITH c AS (SELECT vfail(a) AS a FROM t) SELECT a, (SELECT a FROM c) AS v FROM t",
+	"WITH c AS (SELECT vfail(a) AS a FROM t) SELECT a FROM t WHERE a IN (SELECT a FROM c)",
+	// SUBSTRING forms
+	"SELECT SUBSTRING(s, 1, 1) AS v FROM t",
+	"SELECT SUBSTRING(s FROM 2) AS v FROM t",
+	"SELECT SUBSTRING(s, -1) AS v FROM t",
+	"SELECT SUBSTRING(zz, 1, 1) AS v FROM t",
+	"SELECT SUBSTRING(a, 1) AS v FROM t",
+	"SELECT SUBSTRING(s, s, s) AS v FROM t",
+	"SELECT SUBSTRING(s, 0, -5) AS v FROM t",
+	"SELECT SUBSTRING(s, 1, a) AS v FROM t",
+	// connectives and truth tests over NULL and non-boolean operands
+	"SELECT a FROM t WHERE zz AND a > 1",
+	"SELECT a FROM t WHERE a > 1 OR zz",
+	"SELECT a FROM t WHERE NOT zz",
+	"SELECT a FROM t WHERE s AND a",
+	"SELECT a FROM t WHERE NOT s",
+	"SELECT a FROM t WHERE s IS TRUE",
+	"SELECT a FROM t WHERE o IS NOT FALSE",
+	// sources that are not arrays of objects
+	"SELECT * FROM a",
+	"SELECT * FROM `a.b`",
+	"SELECT * FROM nosuch",
+	"SELECT * FROM nosuch x JOIN t y ON x.a = y.a",
+	"SELECT * FROM t x JOIN nosuch y ON x.a = y.a",
+	"SELECT * FROM `t.arr` x JOIN t y ON x.a = y.a",
 }
 
 // H_C10_queries2: the second list under the option combinations.
@@ -125,7 +161,7 @@ var c10Args = []string{"", "a", "s", "nul", "arr", "o", "a, a", "s, a", "arr, s"
 func H_C10_arity() {
 	fi := verif.Choose("func", len(c10Funcs))
 	ai := verif.Choose("args", len(c10Args))
-	qual := []string{"", "ASYNC.", "SPIN.", "ONCE."}[verif.Choose("qualifier", 4)]
+	qual := []string{"", "ASYNC.", "SPIN.", "ONCE.", "SPINASYNC.", "GLOBAL.", "SCOPED."}[verif.Choose("qualifier", 7)]
 	pos := verif.Choose("position", 2)
 	a := float64(verif.IntRange("a", -1, 2))
 	doc := Map{"t": []any{Map{"a": a, "s": "x", "nul": nil, "arr": []any{a, "q"}, "o": Map{"k": a}}, Map{"a": float64(1), "s": "", "nul": nil, "arr": []any{}, "o": nil}}}
@@ -191,20 +227,34 @@ func panickingFunc(q *Query, cur Map, o *FunctionOptions, args []any) (any, erro
 	return nil, nil
 }
 
+// stringPanickingFunc panics with a value that is not an error.
+func stringPanickingFunc(q *Query, cur Map, o *FunctionOptions, args []any) (any, error) {
+	panic("boom")
+}
+
 // H_C10_async: ASYNC / SPIN / SPINASYNC calls of functions that fail or
 // panic must not crash the process or deadlock.
 func H_C10_async() {
-	fi := verif.Choose("func", 2)
-	mode := verif.Choose("mode", 4)
+	fi := verif.Choose("func", 3)
+	mode := verif.Choose("mode", 6)
+	pos := verif.Choose("position", 3)
 	n := verif.Choose("rows", 3)
 	RegisterFunction("vfail", failingFunc)
 	RegisterFunction("vpanic", panickingFunc)
+	RegisterFunction("vpanics", stringPanickingFunc)
 	doc, _ := numTable(n, "a")
-	name := []string{"vfail", "vpanic"}[fi]
-	qual := []string{"", "ASYNC.", "SPIN.", "SPINASYNC."}[mode]
+	name := []string{"vfail", "vpanic", "vpanics"}[fi]
+	qual := []string{"", "ASYNC.", "SPIN.", "SPINASYNC.", "ONCE.", "SCOPED."}[mode]
 	verif.Opt("schedules", 1)
 	verif.Opt("preempt", 1)
-	newExec(doc, "SELECT a, "+qual+name+"(a) AS v FROM t")
+	sql := "SELECT a, " + qual + name + "(a) AS v FROM t"
+	switch pos {
+	case 1:
+		sql = "SELECT a FROM t WHERE " + qual + name + "(a)"
+	case 2:
+		sql = "SELECT x.a FROM (SELECT a, " + qual + name + "(a) AS v FROM t) x ORDER BY x.v"
+	}
+	newExec(doc, sql)
 	verif.Drain()
 	verif.Reach("end")
 }
